@@ -113,12 +113,9 @@ func (cs *CommandStatement) rearrange() {
 }
 
 func (cs *CommandStatement) split(str string) []*CommandStatementElement {
-	split := strings.Split(str, " ")
+	split := strings.Fields(str) // words are separated by any whitespace, not only by single blanks
 	elements := make([]*CommandStatementElement, 0, len(split))
 	for _, word := range split {
-		if word == "" {
-			continue
-		}
 		value := valueFromCommandText(word)
 		elements = append(elements, &CommandStatementElement{
 			Expression: &Expression{Value: value},
@@ -135,14 +132,29 @@ func valueFromCommandText(commandText string) *variable.Value {
 		return variable.NewBoolean(false)
 	}
 
-	if commandText[0] == '+' { // see Antlr grammar, numbers don't start with + even though Go would be happy to parse them
-		return variable.NewString(commandText)
-	}
-	numberValue, err := strconv.ParseFloat(commandText, 64)
-	if err == nil {
-		return variable.NewNumber(numberValue)
+	// only what the grammar calls a number (digits with an optional fraction), possibly negative, is a
+	// number: Go would also be happy to parse +1, 1e3, .5, 5., 0x10, inf or NaN
+	if isDecimalLiteral(commandText) {
+		if numberValue, err := strconv.ParseFloat(commandText, 64); err == nil {
+			return variable.NewNumber(numberValue)
+		}
 	}
 	return variable.NewString(commandText)
+}
+
+// isDecimalLiteral tells whether s is -?[0-9]+(\.[0-9]+)?
+func isDecimalLiteral(s string) bool {
+	s = strings.TrimPrefix(s, "-")
+	integerPart, fraction, hasFraction := strings.Cut(s, ".")
+	isDigits := func(digits string) bool {
+		for _, r := range digits {
+			if r < '0' || r > '9' {
+				return false
+			}
+		}
+		return digits != ""
+	}
+	return isDigits(integerPart) && (!hasFraction || isDigits(fraction))
 }
 
 type CallStatement struct {
